@@ -140,6 +140,7 @@ inductive Args (P2 : Type) where
   | verify (X : P2) (msg sig : Bytes)
   | sign (x : Nat) (msg : Bytes)
   | tverify (commits : List P2) (msg sig : Bytes)
+  deriving DecidableEq
 
 inductive Outcome where
   | verdict (v : Verdict)
@@ -190,7 +191,7 @@ structure Impl (σ P2 : Type) where
   call : σ → Store P2 → Call → Outcome × σ
 
 inductive Step (P2 : Type) where
-  | mut (m : Mut P2)
+  | upd (m : Mut P2)
   /-- a call; `dst`: the caller keeps the emitted signature in a fresh buffer of that name -/
   | call (c : Call) (dst : Option Nat)
 
@@ -201,7 +202,7 @@ def capture (st : Store P2) : Outcome → Option Nat → Store P2
 
 def runWith {σ : Type} (I : Impl σ P2) : σ → Store P2 → List (Step P2) → List Outcome
   | _, _, [] => []
-  | s, st, .mut m :: rest => runWith I s (st.apply m) rest
+  | s, st, .upd m :: rest => runWith I s (st.apply m) rest
   | s, st, .call c dst :: rest =>
     let r := I.call s st c
     r.1 :: runWith I r.2 (capture st r.1 dst) rest
@@ -223,13 +224,13 @@ def runHist (o : BlsOps P1 P2 PT) (k : KeyOps P2) (st : Store P2) (steps : List 
 /-- the caller's memory after a history, computed with the one-shot functions only -/
 def storeAfter (o : BlsOps P1 P2 PT) (k : KeyOps P2) : Store P2 → List (Step P2) → Store P2
   | st, [] => st
-  | st, .mut m :: rest => storeAfter o k (st.apply m) rest
+  | st, .upd m :: rest => storeAfter o k (st.apply m) rest
   | st, .call c dst :: rest => storeAfter o k (capture st (evalCall o k st c) dst) rest
 
 /-- for every call of the history, in order: the values of its arguments at call time -/
 def argsAt (o : BlsOps P1 P2 PT) (k : KeyOps P2) : Store P2 → List (Step P2) → List (Option (Args P2))
   | _, [] => []
-  | st, .mut m :: rest => argsAt o k (st.apply m) rest
+  | st, .upd m :: rest => argsAt o k (st.apply m) rest
   | st, .call c dst :: rest => st.resolve c :: argsAt o k (capture st (evalCall o k st c) dst) rest
 
 def outcomeOf (o : BlsOps P1 P2 PT) (k : KeyOps P2) : Option (Args P2) → Outcome
